@@ -71,6 +71,9 @@ func init() {
 		Rules:       []string{"E1", "E6.R-lockset"},
 		Run: func(c *Ctx) {
 			RunE1(c, "C13", obs)
+			// "a failed download never discards previously cached keys": nobody may write into the shared key slices handed around
+			// (the cache, the single-flight result): no function of the key-set code writes into a slice it received
+			RunSliceAndClosureWrites(c, []string{"oidc", "client/rp"}, nil)
 			RunLockset(c, "client/rp", "remoteKeySet", "mu", []string{"cachedKeys", "inflight"},
 				[]allowSite{{"client/rp.(*remoteKeySet).updateKeys", "r.inflight.done", "owner goroutine: inflight was stored before `go` (happens-before) and is only replaced by this goroutine, later, under the lock"}},
 				[]string{"client/rp.NewRemoteKeySet"})
@@ -124,7 +127,7 @@ func RunLockset(c *Ctx, pkg, typ, mutex string, fields []string, exceptions []al
 			}
 			recv := info.Uses[id]
 			n++
-			held := recv != nil && heldLock(fi, recv, mutex, sel.Pos())
+			held := recv != nil && heldLockOrByCallers(c, fi, recv, mutex, sel.Pos(), 3)
 			// expression used for exception keys: the selector plus a directly selected method, e.g. r.inflight.done
 			expr := types.ExprString(sel)
 			if p, ok := pm[sel].(*ast.SelectorExpr); ok {
